@@ -29,19 +29,28 @@ import (
 // recording items
 
 type itemSpec struct {
-	Name     int // declared number: the item is called "it<Name>"
+	Name     int // declared number (unique): the item is called "it<Name>" unless Alias is set
 	Provides []int
 	Requires []int
 	Copy     bool
 	Hib      bool
 	Leaf     bool
+	// Alias > 0: Name() is "n<Alias>"; several items of one pipeline may share it (resolve() numbers them
+	// n<Alias>_1, n<Alias>_2, ...) while their Provides()/Requires() differ
+	Alias int
+	// Extras: undeclared keys returned by every Consume besides the default undeclared key e<1000+pos>:
+	// 0, 1, 2 = the keys commit, index, is_merge; k >= 3 = e<k> (an entity of another item or one of its own
+	// inputs); -2 = do not return the default undeclared key
+	Extras []int
 }
 
 type injection struct {
-	Kind string // none | err | miss | hib | boot
+	Kind string // none | err | miss | hib | boot | nil | errm
 	Item int    // declared number
-	K    int    // commit index (err, miss) / ordinal of the Hibernate-or-Boot call on one object (hib, boot)
-	Ent  int    // miss: the entity left out
+	// commit index (err, miss, nil) / ordinal of the Hibernate-or-Boot call on one object (hib, boot) /
+	// errm: Consume fails at the first call with is_merge = true and commit index >= K
+	K   int
+	Ent int // miss: the entity left out
 }
 
 type shared struct {
@@ -53,6 +62,19 @@ type shared struct {
 }
 
 func entName(e int) string { return "e" + strconv.Itoa(e) }
+
+// keyName is entName extended to the three metadata keys (used for undeclared extra keys only)
+func keyName(e int) string {
+	switch e {
+	case 0:
+		return hercules.DependencyCommit
+	case 1:
+		return hercules.DependencyIndex
+	case 2:
+		return hercules.DependencyIsMerge
+	}
+	return entName(e)
+}
 
 func entOfKey(k string) (int, bool) {
 	switch k {
@@ -89,7 +111,19 @@ type based interface{ b() *base }
 
 func (b *base) b() *base { return b }
 
-func (b *base) Name() string { return "it" + strconv.Itoa(b.spec.Name) }
+func (s itemSpec) nameAtom() string {
+	if s.Alias > 0 {
+		return "n" + strconv.Itoa(s.Alias)
+	}
+	return strconv.Itoa(s.Name)
+}
+
+func (b *base) Name() string {
+	if b.spec.Alias > 0 {
+		return "n" + strconv.Itoa(b.spec.Alias)
+	}
+	return "it" + strconv.Itoa(b.spec.Name)
+}
 func (b *base) Provides() []string {
 	r := make([]string, len(b.spec.Provides))
 	for i, e := range b.spec.Provides {
@@ -179,9 +213,15 @@ func (b *base) Consume(deps map[string]interface{}) (map[string]interface{}, err
 		dig = mix(dig, x)
 	}
 	dsx := b.depSx(deps)
-	if sh.inj.Kind == "err" && sh.inj.Item == b.spec.Name && uint64(sh.inj.K) == idx {
+	if sh.inj.Item == b.spec.Name && ((sh.inj.Kind == "err" && uint64(sh.inj.K) == idx) ||
+		(sh.inj.Kind == "errm" && mg == 1 && idx >= uint64(sh.inj.K))) {
 		sh.log = append(sh.log, T("con", I(b.pos), I(b.id), dsx, T("err")))
 		return nil, sh.injErr
+	}
+	if sh.inj.Kind == "nil" && sh.inj.Item == b.spec.Name && uint64(sh.inj.K) == idx {
+		// a nil map and no error: fine for an item without declared outputs, a missing output otherwise
+		sh.log = append(sh.log, T("con", I(b.pos), I(b.id), dsx, T("out")))
+		return nil, nil
 	}
 	upd := map[string]interface{}{}
 	var outs []Sx
@@ -193,9 +233,27 @@ func (b *base) Consume(deps map[string]interface{}) (map[string]interface{}, err
 		upd[entName(e)] = v
 		outs = append(outs, L(I(e), U64(v)))
 	}
-	// an undeclared extra key: Run must not copy it into the state
-	upd[entName(1000+b.pos)] = dig
-	outs = append(outs, L(I(1000+b.pos), U64(dig)))
+	// undeclared extra keys: Run must not copy them into the state
+	noDefault := false
+	for _, e := range b.spec.Extras {
+		noDefault = noDefault || e == -2
+	}
+	if !noDefault {
+		upd[entName(1000+b.pos)] = dig
+		outs = append(outs, L(I(1000+b.pos), U64(dig)))
+	}
+	for _, e := range b.spec.Extras {
+		declared := e < 0
+		for _, p := range b.spec.Provides {
+			declared = declared || p == e
+		}
+		if _, dup := upd[keyName(e)]; declared || dup {
+			continue
+		}
+		v := mix(dig, uint64(e+500))
+		upd[keyName(e)] = v
+		outs = append(outs, L(I(e), U64(v)))
+	}
 	sh.log = append(sh.log, T("con", I(b.pos), I(b.id), dsx, T("out", outs...)))
 	return upd, nil
 }
@@ -313,9 +371,10 @@ type caseIn struct {
 	Items   []itemSpec // in registration order
 	Inj     injection
 	Commits []commitSpec
+	PA      bool // facts[ConfigPipelinePrintActions]
 }
 
-var missRe = regexp.MustCompile(`^it(\d+): Consume\(\) did not return e(\d+)$`)
+var missRe = regexp.MustCompile(`^(?:it(\d+)|(n\d+)): Consume\(\) did not return e(\d+)$`)
 
 // planLine is one line of Run's plan dump.
 type planLine struct {
@@ -362,7 +421,12 @@ func runCase(in caseIn) (obs []Sx, nt bool, fatal error) {
 		hercules.ConfigLogger:           nopLogger{},
 		hercules.ConfigPipelineDumpPlan: true,
 	}
-	var dump []planLine
+	if in.PA {
+		facts["Pipeline.PrintActions"] = true // core.ConfigPipelinePrintActions (not re-exported by the root package)
+	}
+	// the lines that arrive before the first call of an item are the plan dump of prepareRunPlan (Run clones the
+	// items right after it); with PrintActions, Run prints every action again just before it executes it
+	var dump, printed []planLine
 	old := vc14.SetPlanPrinter(func(args ...interface{}) {
 		pl := planLine{kind: args[0].(string)}
 		switch pl.kind {
@@ -374,10 +438,19 @@ func runCase(in caseIn) (obs []Sx, nt bool, fatal error) {
 		default:
 			pl.items = append([]int{}, args[1].([]int)...)
 		}
-		dump = append(dump, pl)
+		if len(sh.log) == 0 {
+			dump = append(dump, pl)
+		} else {
+			printed = append(printed, pl)
+		}
 	})
 	defer vc14.SetPlanPrinter(old)
-	if err := pipeline.Initialize(facts); err != nil {
+	var ierr error
+	if _, p := Catch(func() { ierr = pipeline.Initialize(facts) }); p || ierr != nil {
+		// resolve() rejected the pipeline (or panicked: known findings C10-K1/K2 about doubly provided entities): outside C14
+		if os.Getenv("C14_DEBUG") != "" {
+			fmt.Fprintln(os.Stderr, "initfail:", p, ierr)
+		}
 		return []Sx{T("initfail")}, false, nil
 	}
 	resolved := pipeline.VerifItems()
@@ -390,6 +463,9 @@ func runCase(in caseIn) (obs []Sx, nt bool, fatal error) {
 	sh.nextID = len(resolved)
 	if pipeline.HibernationDistance != in.Dist {
 		return nil, false, fmt.Errorf("hibernation distance not taken from the facts")
+	}
+	if pipeline.PrintActions != in.PA {
+		return nil, false, fmt.Errorf("PrintActions not taken from the facts")
 	}
 
 	var result map[hercules.LeafPipelineItem]interface{}
@@ -472,7 +548,7 @@ func runCase(in caseIn) (obs []Sx, nt bool, fatal error) {
 		if err == sh.injErr {
 			res = T("res", A("err"), A("injected"))
 		} else if m := missRe.FindStringSubmatch(err.Error()); m != nil {
-			res = T("res", A("err"), A("missing"), A(m[1]), A(m[2]))
+			res = T("res", A("err"), A("missing"), A(m[1]+m[2]), A(m[3]))
 		} else {
 			res = T("res", A("err"), A("other"))
 		}
@@ -519,6 +595,20 @@ func runCase(in caseIn) (obs []Sx, nt bool, fatal error) {
 		tsx[i] = L(I(in.Commits[i].ID), I64(cm.Committer.When.Unix()))
 	}
 	obs = []Sx{T("order", Ints(order).List...), T("times", tsx...), T("plan", psx...), T("log", sh.log...), res}
+	// PrintActions: what Run printed must be the executed prefix of the dumped plan (all of it when Run returned a result);
+	// without the option nothing is printed after the dump
+	printOK := len(printed) <= len(dump)
+	for i := 0; printOK && i < len(printed); i++ {
+		printOK = printed[i].kind == dump[i].kind && fmt.Sprint(printed[i].items) == fmt.Sprint(dump[i].items) && printed[i].hash == dump[i].hash
+	}
+	if in.PA {
+		printOK = printOK && (len(printed) >= 1 || len(dump) == 0) && (panicked || err != nil || len(printed) == len(dump))
+	} else {
+		printOK = len(printed) == 0
+	}
+	if !printOK {
+		obs = append(obs, T("printbad", I(len(printed)), I(len(dump))))
+	}
 	return obs, nt, nil
 }
 
@@ -529,13 +619,20 @@ func (in caseIn) fields() []Sx {
 	its := make([]Sx, len(in.Items))
 	for i, s := range in.Items {
 		its[i] = L(I(s.Name), Ints(s.Provides), Ints(s.Requires), B(s.Copy), B(s.Hib), B(s.Leaf))
+		if s.Alias > 0 || len(s.Extras) > 0 {
+			its[i].List = append(its[i].List, I(s.Alias), Ints(s.Extras))
+		}
 	}
 	cs := make([]Sx, len(in.Commits))
 	for i, c := range in.Commits {
 		cs[i] = L(I(c.ID), I64(c.Time), Ints(c.Parents))
 	}
-	return []Sx{T("dist", I(in.Dist)), T("items", its...),
-		T("inject", A(in.Inj.Kind), I(in.Inj.Item), I(in.Inj.K), I(in.Inj.Ent)), T("commits", cs...)}
+	fs := []Sx{T("dist", I(in.Dist)), T("items", its...),
+		T("inject", A(in.Inj.Kind), I(in.Inj.Item), I(in.Inj.K), I(in.Inj.Ent))}
+	if in.PA {
+		fs = append(fs, T("pa", I(1)))
+	}
+	return append(fs, T("commits", cs...))
 }
 
 func intsOf(s Sx) []int {
@@ -556,13 +653,20 @@ func parseCase(s Sx) caseIn {
 	}
 	if f, ok := s.Field("items"); ok {
 		for _, x := range f.Args() {
-			in.Items = append(in.Items, itemSpec{Name: x.List[0].Int(), Provides: intsOf(x.List[1]), Requires: intsOf(x.List[2]),
-				Copy: x.List[3].Int() != 0, Hib: x.List[4].Int() != 0, Leaf: x.List[5].Int() != 0})
+			it := itemSpec{Name: x.List[0].Int(), Provides: intsOf(x.List[1]), Requires: intsOf(x.List[2]),
+				Copy: x.List[3].Int() != 0, Hib: x.List[4].Int() != 0, Leaf: x.List[5].Int() != 0}
+			if len(x.List) >= 8 {
+				it.Alias, it.Extras = x.List[6].Int(), intsOf(x.List[7])
+			}
+			in.Items = append(in.Items, it)
 		}
 	}
 	if f, ok := s.Field("inject"); ok {
 		a := f.Args()
 		in.Inj = injection{Kind: a[0].Atom, Item: a[1].Int(), K: a[2].Int(), Ent: a[3].Int()}
+	}
+	if f, ok := s.Field("pa"); ok {
+		in.PA = f.Args()[0].Int() != 0
 	}
 	if f, ok := s.Field("commits"); ok {
 		for _, x := range f.Args() {
@@ -892,4 +996,7 @@ func main() {
 		}
 		emit(c, caseIn{Kind: "octo", Dist: d, Items: its, Inj: inj, Commits: cs})
 	}
+	// input attributes of the pipelines (gen2.go) and the scale family (scale.go)
+	attrStreams(c)
+	scaleStreams(c)
 }
